@@ -155,10 +155,24 @@ func (c *Check) resetConstants(rule string) {
 	}
 	c.req(n >= 1, rule, "reset-writes", token.NoPos, fmt.Sprintf("%d reset writes found", n))
 	// every context is reset: the closure bound to the whole-family context scan stores on every path
-	for _, b := range c.closuresBoundToScan("0x08") {
+	resetUnits := c.closuresBoundToScan("0x08")
+	for _, b := range c.inlineScanUnits("0x08") {
+		dup := false
+		for _, o := range resetUnits {
+			if o.Closure == b.Closure {
+				dup = true
+			}
+		}
+		if !dup {
+			resetUnits = append(resetUnits, b)
+		}
+	}
+	nReset := 0
+	for _, b := range resetUnits {
 		if !c.isZeroHeightOnly(b.Closure.root()) {
 			continue
 		}
+		nReset++
 		bad := 0
 		np := 0
 		// two-pass form: the closure gathers the reset contexts and its parent stores every gathered one in a loop
@@ -170,7 +184,7 @@ func (c *Check) resetConstants(rule string) {
 				}
 			}
 		}
-		for _, pa := range c.P.PathsOf(b.Closure) {
+		for _, pa := range c.unitPaths(b) {
 			np++
 			_, ok := c.pathHasEffect(b.Closure, pa, func(e *Eff) bool { return e.Kind == "store" && e.Op == "Set" && e.Family == "0x08" })
 			if !ok && parentStores {
@@ -183,7 +197,7 @@ func (c *Check) resetConstants(rule string) {
 			if !ok {
 				// a context left as it is must already hold the reset values
 				af := pa.AllFacts()
-				X := atom(b.ValP)
+				X := b.val()
 				if hasEq(af, field("RequestContext", "State", X), "#types.PAUSED", false) && hasEq(af, field("RequestContext", "BatchState", X), "#types.BATCHCOMPLETED", false) &&
 					hasEq(af, field("RequestContext", "BatchRequestCount", X), "#0", false) && hasEq(af, field("RequestContext", "BatchResponseCount", X), "#0", false) {
 					ok = true
@@ -194,7 +208,7 @@ func (c *Check) resetConstants(rule string) {
 			}
 			// the iteration must not be stopped early
 			for _, r := range pa.Ret {
-				if !r.IsAt("#false") {
+				if !b.Inline && !r.IsAt("#false") {
 					bad++
 				}
 			}
@@ -202,6 +216,7 @@ func (c *Check) resetConstants(rule string) {
 		c.req(np > 0 && bad == 0, rule, unitConstruct(b.Closure, "reset-every-context"), b.Closure.Body.Pos(),
 			fmt.Sprintf("every path of the per-context reset stores the reset context and continues the iteration (%d of %d paths do not)", bad, np))
 	}
+	c.req(nReset >= 1, rule, "reset-units", token.NoPos, fmt.Sprintf("%d units reset the contexts of a whole-family scan at zero-height preparation", nReset))
 	// validation requires exactly these constants
 	vg := c.mustFn(rule, c.typesName("ValidateGenesis"))
 	if vg == nil {
